@@ -19,7 +19,8 @@ import numpy as np
 from harness.core import pmap, MachineryError
 from harness import red_common as RC
 
-NCFG = {"TO": 3, "EG": 3, "GS": 2, "CR": 2, "ADVC": 2, "ADVR": 1}
+NCFG = {"TO": 3, "EG": 3, "GS": 2, "CR": 3, "ADVC": 2, "ADVR": 1}
+CR_COLS = {1: ["s", "a", "b"], 2: ["a", "b", "s"]}        # CR config 2: DataFrame input, sensitive column by NAME, at another position in D2
 
 
 def _datasets():
@@ -54,7 +55,8 @@ def make(kind, ci):
         return [lambda: red.GridSearch(RC.ExactLearner(), red.EqualizedOdds(), grid_size=5),
                 lambda: red.GridSearch(RC.ExactLearner(), red.DemographicParity(ratio_bound=0.9), grid_size=4, constraint_weight=0.3, grid_limit=1.5)][ci]()
     if kind == "CR":
-        return [lambda: CorrelationRemover(sensitive_feature_ids=[0], alpha=0.7), lambda: CorrelationRemover(sensitive_feature_ids=[2, 0])][ci]()
+        return [lambda: CorrelationRemover(sensitive_feature_ids=[0], alpha=0.7), lambda: CorrelationRemover(sensitive_feature_ids=[2, 0]),
+                lambda: CorrelationRemover(sensitive_feature_ids=["s"])][ci]()
     if kind == "ADVC":
         return [lambda: AdversarialFairnessClassifier(backend="torch", predictor_model=[3, "relu"], adversary_model=[2], predictor_optimizer="SGD", adversary_optimizer="SGD",
                                                       learning_rate=0.1, epochs=2, batch_size=4, random_state=7),
@@ -64,16 +66,24 @@ def make(kind, ci):
                                         learning_rate=0.05, epochs=2, batch_size=5, random_state=11)
 
 
-def _fit(kind, est, D):
+def _named(X, d):
+    import pandas as pd
+    df = pd.DataFrame(np.asarray(X), columns=["s", "a", "b"])
+    return df[CR_COLS[d]]
+
+
+def _fit(kind, est, D, ci=0, d=1):
     if kind == "CR":
-        return est.fit(D["X"])
+        return est.fit(_named(D["X"], d) if ci == 2 else D["X"])
     if kind == "ADVR":
         return est.fit(D["X"], D["yc"], sensitive_features=D["gc"])
     return est.fit(D["X"], D["y"], sensitive_features=D["g"])
 
 
-def _fp(kind, est, q, qg, seed):
+def _fp(kind, est, q, qg, seed, ci=0, d=1):
     """fingerprint of the predictions on the fixed query set (raises NotFittedError when unfitted)"""
+    if kind == "CR" and ci == 2:
+        q = _named(q, d or 1)
     if kind == "TO":
         arr = [est.predict(q, sensitive_features=qg, random_state=seed), est._pmf_predict(q, sensitive_features=qg)]
     elif kind == "EG":
@@ -114,8 +124,8 @@ def _ref(job):
         for d in (1, 2):
             for s in (1, 2):
                 est = make(kind, ci)
-                _fit(kind, est, data[d])
-                out.append(_fp(kind, est, q, qg, s))
+                _fit(kind, est, data[d], ci, d)
+                out.append(_fp(kind, est, q, qg, s, ci, d))
         return out
     except Exception as e:
         return {"error": repr(e)}
@@ -140,17 +150,19 @@ def _run(job):
             if not any(all(sig.get(a) == b for a, b in kf["match"].items()) for kf in known):
                 unknown.append(k)
         return not unknown
+    cur = None            # data set of the last fit (None after clone)
     for (name, arg) in hist:
         try:
             if name == "fit":
-                ret = _fit(kind, est, data[arg])
+                ret = _fit(kind, est, data[arg], ci, arg)
+                cur = arg
                 events.append({"ev": "fit", "d": arg, "ret_self": ret is est, "params_ok": params_ok(f"fit(D{arg})")})
                 if ret is not est:
                     viol.append(({"api": "fit", "kind": "return_value", "estimator": kind}, f"{kind}.fit returned {type(ret).__name__} instead of the estimator itself", detail))
             elif name == "predict":
                 try:
-                    a = _fp(kind, est, q, qg, arg)
-                    b = _fp(kind, est, q, qg, arg)
+                    a = _fp(kind, est, q, qg, arg, ci, cur)
+                    b = _fp(kind, est, q, qg, arg, ci, cur)
                     events.append({"ev": "predict", "seed": arg, "fitted": True, "fp": a, "fp_repeat": b, "params_ok": params_ok("predict")})
                 except NotFittedError:
                     events.append({"ev": "predict", "seed": arg, "fitted": False, "fp": 0, "fp_repeat": 0, "params_ok": params_ok("predict")})
@@ -169,8 +181,9 @@ def _run(job):
                 ok = set(p1) == set(pb) and all(type(p1[k]) is type(pb[k]) for k in pb) and all(_eq(p1[k], pb[k]) for k in pb if not hasattr(pb[k], "__dict__"))
                 ok0 = set(p1) == set(p0) and all(type(p1[k]) is type(p0[k]) for k in p0) and all(_eq(p1[k], p0[k]) for k in p0 if not hasattr(p0[k], "__dict__"))
                 p0 = p1
+                cur = None
                 try:
-                    _fp(kind, est, q, qg, 1)
+                    _fp(kind, est, q, qg, 1, ci, 1)
                     fitted = True
                 except NotFittedError:
                     fitted = False
